@@ -284,10 +284,20 @@ Definition is_target (t : expr) : bool :=
 
 (* [core e]: e is in the core; a starred expression only as an element of a display or a call.  Operand positions use
    [core x && negb (is_starred x)]. *)
+(* a literal that is ONE token: a negative number is a minus sign applied to a literal (the parser never produces it, and
+   since fix 86a1b7e neither does the converter) *)
+Definition lit_ok (c : const) : bool :=
+  match c with
+  | CInt z => (0 <=? z)%Z
+  | CFloat r | CComplex r => negb (starts_with 45%N r) && negb (starts_with 40%N r)
+  | _ => true
+  end.
+
 Fixpoint core (e : expr) {struct e} : bool :=
   let ec := fun x => core x && negb (is_starred x) in
   match e with
-  | Name _ | Constant _ => true
+  | Name _ => true
+  | Constant c => lit_ok c
   | BinOp l _ r => ec l && ec r
   | UnaryOp _ v => ec v
   | BoolOp _ vs => Nat.leb 2 (length vs) && forallb (fun x => core x && negb (is_starred x)) vs
